@@ -91,26 +91,37 @@ pub fn run(tier: Tier) -> i32 {
     let ctx = Ctx::new("C05", tier);
     let ints = int_set(tier);
     let fracs = frac_set(tier);
-    let mut shards: Vec<(L, usize, usize)> = vec![];
+    // integer sweep (quick tier; the thorough tier has every integer below 1000 in its main set): no integer part is
+    // special — every integer below 1000 that the main set lacks, with six short fractions
+    let ints2: Vec<u64> = if tier == Tier::Quick { (0..1000u64).filter(|n| !ints.contains(n)).collect() } else { vec![] };
+    let fracs2: Vec<String> = ["0", "5", "05", "10", "25", "99"].iter().map(|x| x.to_string()).collect();
+    let mut shards: Vec<(L, usize, usize, u8)> = vec![];
     let step = (ints.len() / 24).max(1);
     for l in langs::ALL {
         let mut lo = 0;
         while lo < ints.len() {
             let hi = (lo + step).min(ints.len());
-            shards.push((l, lo, hi));
+            shards.push((l, lo, hi, 0));
+            lo = hi;
+        }
+        let mut lo = 0;
+        while lo < ints2.len() {
+            let hi = (lo + 40).min(ints2.len());
+            shards.push((l, lo, hi, 1));
             lo = hi;
         }
     }
     let frames: [(&str, &str); 3] = [("xyzzy ", " plugh"), ("", ""), ("xyzzy, ", ".")];
-    let mut acc = par_shards(shards, |&(l, lo, hi), acc| {
+    let mut acc = par_shards(shards, |&(l, lo, hi, stage), acc| {
         let lang = l.facade();
-        let fr_spoken: Vec<String> = fracs.iter().map(|d| spell_fraction(l, d)).collect();
-        for &n in &ints[lo..hi] {
+        let (ints_s, fracs_s): (&[u64], &[String]) = if stage == 0 { (&ints, &fracs) } else { (&ints2, &fracs2) };
+        let fr_spoken: Vec<String> = fracs_s.iter().map(|d| spell_fraction(l, d)).collect();
+        for &n in &ints_s[lo..hi] {
             let int_text = spell::spell(l, n, Var::default());
             if l == L::De && int_text.contains("eine ") {
                 continue; // known finding of C01 (de 'eine Million'), not this property's subject
             }
-            for (d, spoken) in fracs.iter().zip(fr_spoken.iter()) {
+            for (d, spoken) in fracs_s.iter().zip(fr_spoken.iter()) {
                 acc.states += 1;
                 let phrase = format!("{int_text} {} {spoken}", l.sep());
                 let want_num = format!("{n}{}{d}", l.mark());
@@ -187,7 +198,7 @@ pub fn run(tier: Tier) -> i32 {
             }
             // English: the same fractions dictated with the zero alias 'o'
             if l == L::En && (n < 10 || n == 120) {
-                for (d, spoken) in fracs.iter().zip(fr_spoken.iter()) {
+                for (d, spoken) in fracs_s.iter().zip(fr_spoken.iter()) {
                     // a lone 'o' between the separator and an ordinary word has no number word next to it: by
                     // the 'o' rule (C18) it is then an ordinary word, so that case is not a decimal
                     if !d.contains('0') {
@@ -270,7 +281,7 @@ pub fn run(tier: Tier) -> i32 {
     let cov = json!({
         "exhaustive": true,
         "rule": "every (language, integer part from I, fraction digit string from D) rendered by the reference spellers (digit by digit in en/de, zeros + number otherwise), rewritten at threshold 0 in up to 3 frames; occurrence value checked at threshold 1000; plus negative cases per integer",
-        "bounds": {"integers": ints.len(), "fractions": fracs.len(), "fraction_lengths": format!("all digit strings of length <= {}; plus structured lengths 5-6 (zeros in front of ~125 representative numbers) and 36 fractions of 7-14 digits (scale words inside the fraction); en/de: dictated fractions of every length 13..64", 4)},
+        "bounds": {"integer_sweep": format!("{} further integers below 1000 x fractions 0, 5, 05, 10, 25, 99", ints2.len()), "integers": ints.len(), "fractions": fracs.len(), "fraction_lengths": format!("all digit strings of length <= {}; plus structured lengths 5-6 (zeros in front of ~125 representative numbers) and 36 fractions of 7-14 digits (scale words inside the fraction); en/de: dictated fractions of every length 13..64", 4)},
     });
     ctx.finish(acc, cov, vec![
         "integer parts are a representative set (quick) or all n < 1000 plus the 16^3 group product (thorough), not all n < 10^9".into(),
